@@ -261,6 +261,10 @@ func (g *sgen) presentation(out *[]attrSpec) {
 		*out = append(*out, attrSpec{g.r.Pick("data-x", "title"), "\x00RAW" + g.r.Pick("&#60;", "&#38; x", "&#x3c;b", "a&#x26;")})
 		g.hit("charref-to-markup")
 	}
+	if g.r.Chance(1, 12) { // (K26 repaired: name-like attributes whose value looks like a number are part of the default stream)
+		*out = append(*out, attrSpec{g.r.Pick("id", "class", "unicode", "glyph-name", "data-x", "aria-level", "lang", "name"), g.r.Pick("1000", "0050", "0100", "1.0", "007", "+5", "10px", "1e3")})
+		g.hit("numeric-looking-name-attribute")
+	}
 	if g.known {
 		switch g.r.Intn(14) {
 		case 0:
